@@ -91,4 +91,11 @@ CLAIMED.update({
   "technique": "symbolic execution of the methods on a symbolic object state (invariant + frame of attributes and arrays), callee contracts; z3",
  },
 })
+CLAIMED.update({
+ "C08": {
+  "text": "The real closed forms (structure_function_vk, structure_function_kolmogorov, phase_covariance, KL copies stf_vonKarman / stf_kolmogorov) are executed symbolically for all r, r0, L0 > 0 and compared as expressions: every form uses the same Bessel term kv(5/6, 2 pi r/L0); the KL von Karman copy equals structure_function_vk(r, 1, L0) exactly; Kolmogorov copies have exponent 5/3 exactly and constants within 1e-3; D and C are affine in the Bessel term with identical r, r0, L0 dependence (exact) and coefficients such that D(r) = 2(C(0+) - C(r)) within 1e-3 (40-digit enclosures of Gamma / pi constants); both scale as r0^(-5/3) exactly; C(0+) = 0.0863 (L0/r0)^(5/3) and the saturation of D is twice that, within 1e-3; D(0+) = 0 by exact cancellation of its constants. Value at exactly r = 0: listed known finding (nan).",
+  "note": BASE + "A-MATH (x^nu K_nu(x) -> 2^(nu-1) Gamma(nu)); the 1e-40 regularisation inside phase_covariance is accounted for by stating its contract at the internal separation; Kolmogorov limit, monotonicity, Hankel-transform agreement and PSD-ness are bounded native checks only.",
+  "technique": "symbolic execution of the real formulas to closed-form expressions; exact algebra (sympy) and 40-digit constant enclosures (mpmath)",
+ },
+})
 NOT_APPLICABLE = {}
